@@ -2,6 +2,7 @@ package spec
 
 import (
 	"bytes"
+	"fmt"
 	"strings"
 	"verif/sim/core"
 )
@@ -321,6 +322,9 @@ func Gen(c *core.Chooser, p *PDU, o GenOpt) *Msg {
 		break
 	}
 	if o.Twin > 0 {
+		if o.Twin%2 == 1 {
+			e164(m, o.Twin)
+		}
 		twinFields(m, o.Twin)
 	}
 	if o.Shape == 0 && !o.BodyNoNul && c.Prob(1, 10) {
@@ -333,6 +337,33 @@ func Gen(c *core.Chooser, p *PDU, o GenOpt) *Msg {
 		reportBody(c, m)
 	}
 	return m
+}
+
+// e164 makes the address triples of a PDU say the same thing in all three places: type of number 1 (international),
+// numbering plan 1 (ISDN) and a number written the E.164 way, with its plus sign - or the alphanumeric pair 5/0 with
+// a name. Independent generators produce such a triple once in tens of thousands of PDUs.
+func e164(m *Msg, k int) {
+	fs := m.PDU.Fields
+	for i := 0; i+2 < len(fs); i++ {
+		if !strings.HasSuffix(fs[i].Name, "addr_ton") || !strings.HasSuffix(fs[i+1].Name, "addr_npi") || fs[i+2].Kind != KCStr {
+			continue
+		}
+		ton, npi, addr := m.F[fs[i].Name], m.F[fs[i+1].Name], m.F[fs[i+2].Name]
+		if ton == nil || npi == nil || addr == nil {
+			continue
+		}
+		switch (k / 2) % 3 {
+		case 0:
+			ton.U, npi.U, addr.B = 1, 1, []byte(fmt.Sprintf("+86138%08d", k*7919%100000000))
+		case 1:
+			ton.U, npi.U, addr.B = 5, 0, []byte([]string{"ALERT", "Bank24", "My-Shop"}[k%3])
+		default:
+			ton.U, npi.U, addr.B = 0, 0, []byte(fmt.Sprintf("+1%010d", int64(k)*104729%10000000000))
+		}
+		if len(addr.B) > fs[i+2].Width-1 {
+			addr.B = addr.B[:fs[i+2].Width-1]
+		}
+	}
 }
 
 // twinFields gives two text-like slots of one PDU the same value - independent generators never do that, real
